@@ -166,20 +166,21 @@ Proof. exact checkpoints_resume_inflight_proof. Qed.
 Print Assumptions checkpoints_resume_inflight.
 
 (* the surviving operator: after a (re)deploy the barriers of the next checkpoint, from all its runners in any
-   order, are accepted and the last one completes the checkpoint - whatever slot the failed assembly left *)
+   order, are accepted and the last one completes the checkpoint - whatever slot the failed assembly left: empty, half
+   aligned, or complete but unreported because the job refused the ack ([o] is arbitrary) *)
 Theorem operator_slot_resumes : forall q o runners order id,
-  q_keep_slot q = false -> sorted runners -> runners <> [] ->
+  q_keep_slot q = false -> q_keep_complete_slot q = false -> sorted runners -> runners <> [] ->
   NoDup order -> (forall x, In x order <-> In x runners) ->
   let o1 := oper_deploy q o runners in
-  exists pre_rs, snd (oper_barriers o1 order id) = pre_rs ++ [2] /\ Forall (fun r => r = 0) pre_rs /\
-                 o_slot (fst (oper_barriers o1 order id)) = None.
+  exists pre_rs, snd (oper_barriers o1 order id true) = pre_rs ++ [2] /\ Forall (fun r => r = 0) pre_rs /\
+                 o_slot (fst (oper_barriers o1 order id true)) = None.
 Proof. exact operator_slot_resumes_proof. Qed.
 Print Assumptions operator_slot_resumes.
 
 (* ---- the code before the repairs violates checkpoints_resume (D18a, D30, D18b): computed witnesses, each
    replayed on the implementation by corpus/job/*.json *)
 Theorem checkpoints_resume_refuted_keep_pending :
-  let c := cfg_of (MkQuirks true false false false false) in
+  let c := cfg_of (MkQuirks true false false false false false) in
   let s := exec c hist_d18 in
   stat s = Running /\ a_ops s = [1] /\ a_srs s = [0] /\
   forall k, let s' := fst (run c s (repeat OTick k ++ [OAckOp 1 1; OAckSr 0 1; OAckOp 1 2; OAckSr 0 2; OTick])) in
@@ -188,7 +189,7 @@ Proof. exact checkpoints_resume_refuted_keep_pending_proof. Qed.
 Print Assumptions checkpoints_resume_refuted_keep_pending.
 
 Theorem checkpoints_resume_refuted_splitters :
-  let c := cfg_of (MkQuirks false true false false false) in
+  let c := cfg_of (MkQuirks false true false false false false) in
   let s := exec c hist_d30 in
   stat s = Running /\ a_ops s = [1] /\ a_srs s = [0] /\ pend (sto s) = None /\
   map o_res (snd (run c s [OTick; OAckOp 1 2; OAckSr 0 2])) = [0; 0; 2] /\
@@ -199,7 +200,7 @@ Print Assumptions checkpoints_resume_refuted_splitters.
 (* seeded C15-3 (an abort that spares savepoints): with a requested savepoint, or a checkpoint upgraded to one, in flight
    when the operator leaves, the new assembly runs but ticks start nothing, savepoint requests fail, and no ack completes anything *)
 Theorem checkpoints_resume_refuted_keep_savepoint :
-  let c := cfg_of (MkQuirks false false false true false) in
+  let c := cfg_of (MkQuirks false false false true false false) in
   forall h, h = hist_sp_a \/ h = hist_sp_b ->
   let s := exec c h in
   stat s = Running /\ a_ops s = [1] /\ a_srs s = [0] /\
@@ -210,7 +211,7 @@ Print Assumptions checkpoints_resume_refuted_keep_savepoint.
 
 (* seeded C15r2-1 (ticker created once only): after the first recovery the job is Running with a stopped ticker *)
 Theorem checkpoints_resume_refuted_ticker_once :
-  let c := cfg_of (MkQuirks false false false false true) in
+  let c := cfg_of (MkQuirks false false false false true false) in
   let s := exec c hist_tk in
   stat s = Running /\ a_ops s = [1] /\ a_srs s = [0] /\ pend (sto s) = None /\ completed (sto s) = 1 /\
   ticker s = 2 /\ step c s OTick = (s, mk_obs s []).
@@ -218,10 +219,31 @@ Proof. exact checkpoints_resume_refuted_ticker_once_proof. Qed.
 Print Assumptions checkpoints_resume_refuted_ticker_once.
 
 Theorem operator_slot_refuted :
-  let o1 := fst (oper_barriers (oper_deploy original (MkOper [] None) [0; 1]) [0] 4) in
-  snd (oper_barriers (oper_deploy original o1 [0; 1]) [1; 0] 6) = [1; 3].
+  let o1 := fst (oper_barriers (oper_deploy original (MkOper [] None) [0; 1]) [0] 4 true) in
+  snd (oper_barriers (oper_deploy original o1 [0; 1]) [1; 0] 6 true) = [1; 3].
 Proof. exact operator_slot_refuted_proof. Qed.
 Print Assumptions operator_slot_refuted.
+
+(* seeded C15r5-3 (deploy clears only a half-aligned slot) and the repaired code on the same history *)
+Theorem operator_slot_refuted_keep_complete :
+  let q := MkQuirks false false false false false true in
+  let o1 := fst (oper_barriers (oper_deploy q (MkOper [] None) [0; 1]) [0; 1] 4 false) in
+  snd (oper_barriers (oper_deploy q (MkOper [] None) [0; 1]) [0; 1] 4 false) = [0; 5] /\
+  o_slot o1 = Some (MkSlot 4 []) /\
+  snd (oper_barriers (oper_deploy q o1 [0; 1]) [1; 0] 5 true) = [1; 1] /\
+  snd (oper_barriers (oper_deploy current o1 [0; 1]) [1; 0] 5 true) = [0; 2].
+Proof. exact operator_slot_refuted_keep_complete_proof. Qed.
+Print Assumptions operator_slot_refuted_keep_complete.
+
+(* observed and modelled, not required by the property: a refused ack WITHOUT a redeployment leaves a slot that rejects
+   every later checkpoint's barriers *)
+Theorem refused_slot_without_redeploy : forall runners id id' sender accept,
+  id' <> id ->
+  let o := MkOper runners (Some (MkSlot id [])) in
+  oper_barrier o sender id' accept = (o, 1) /\
+  oper_barrier o sender id accept = oper_finish o id accept.
+Proof. exact refused_slot_without_redeploy_proof. Qed.
+Print Assumptions refused_slot_without_redeploy.
 
 (* ---- non-vacuity: the hypotheses are satisfiable, the conclusions are reached on a history with faults *)
 Definition c2 : cfg := MkCfg 2 5000 current.
